@@ -7,7 +7,7 @@ LEAN_MODULE = "HexProps.C07"
 SCOPE = []
 ORACLE_RULE = "C07: see hx/oracles/framework.py (c07_case): random indicator spec (26 kinds + Amorph wrappers) x stream style x timeframe/fill x schedule on the real code"
 ASSUMPTIONS = ["TZ=UTC for this check"]
-PARTIAL = ""
+PARTIAL = 'proved: exactly one reading per appended/merged candle per node after warm-up; the size of the look-back window, call counts and wall-clock are measured on the real code (recording list, sys.setprofile), not proved'
 
 
 def oracle(ctx):
